@@ -325,6 +325,26 @@ def run(chk: Check) -> None:
         rec += vloop.run(lambda: _scenario(chk.seed * 7919 + i))
     for i in range(12 if quick else 300):
         rec += asyncio.run(_real_listener_scenario(chk.seed * 13 + i))
+    from . import c16_eager
+
+    erec: list[dict[str, Any]] = []
+    for burst, eager in ((40, True), (400, True), (400, False)) if quick else ((40, True), (150, True), (400, True), (2000, True), (2000, False)):
+        for t in c16_eager.run_in_child(burst, eager):
+            t["events"] = traces.uniform(t["events"], EVD)
+            erec.append(t)
+    eres = traces.validate("DatagramFifoLaw", [{"events": t["events"]} for t in erec], cfg_text="INIT TInit\nNEXT TNext\nCONSTRAINT Constr\nPOSTCONDITION Post\nCHECK_DEADLOCK FALSE\n", parallel=2, chunk=50)
+    chk.traces += len(erec)
+    chk.extra["eager_task_factory"] = {"traces": len(erec), "events": eres.nevents, "rejected": len(eres.rejected)}
+    for t in erec:
+        chk.distinct.add(("eager", t["meta"]))
+    for idx, pos in sorted(eres.rejected.items()):
+        t = erec[idx]
+        failing = t["events"][pos - 1] if 0 < pos <= len(t["events"]) else None
+        chk.violation(
+            {"kind": "trace", "spec": "DatagramFifoLaw", "what": "eager_task_factory", "event": (failing or {}).get("ev", "?")},
+            f"datagram server on an eager-task loop: the per-address law is broken at event #{pos} of {len(t['events'])}: {failing} -- {t['meta']}",
+            {"kind": "eager_trace", "meta": t["meta"], "events_around": t["events"][max(0, pos - 6) : pos + 3]},
+        )
     slim = [{"par": t["par"], "events": t["events"]} for t in rec]
     res = traces.validate("DatagramServerTrace", slim, cfg_text=TRACE_CFG, parallel=12, chunk=300)
     chk.traces += len(rec)
